@@ -149,6 +149,10 @@ def build_scenario(rnd, fx, idx):
             else:
                 ret = None if rnd.random() < 0.1 else get_type(gen(2), k)
                 traces.append(CallTrace(fn, args, ret))
+    if idx % 3 == 1:
+        # traces of one generator with identical argument and return types that differ ONLY in what was yielded
+        for yt in rnd.sample([int, str, bytes, type(None), float], 3):
+            traces.append(CallTrace(fx.g0, {"a": int}, type(None), yt))
     if idx % 6 == 3:
         # two functions with a same-named dict parameter of different shape, limit 3: the generated class names collide
         k = 3
